@@ -2,7 +2,10 @@ package hx
 
 import (
 	"bytes"
+	"errors"
 	"fmt"
+	"io"
+	"net"
 	"os"
 	"path"
 	"path/filepath"
@@ -34,6 +37,12 @@ type Model struct {
 	Trace []string
 	St    *Stats
 	pre   *pre
+
+	// RecordReplies keeps the raw bytes received for every request (needs Conn.KeepRecv)
+	RecordReplies bool
+	Replies       [][]byte
+	ReplyImage    []bool // the reply carries bytes of a generated image (timestamps/random filler vary)
+	roIsImage     bool
 }
 
 type Obj interface {
@@ -211,6 +220,7 @@ func (m *Model) readFixed(c *Conn, n int, what string) ([]byte, error) {
 type pre struct {
 	real, clean  string
 	usable       bool
+	escapes      bool
 	lfi, fi      os.FileInfo
 	lerr, serr   error
 	parentIsDir  bool
@@ -227,8 +237,8 @@ func (m *Model) Observe(r Req) {
 
 func (m *Model) observe(r Req) *pre {
 	p := &pre{woSize: -1}
-	p.real, p.clean, _ = m.Resolve(string(r.Path))
-	p.usable = pathUsable(string(r.Path))
+	p.real, p.clean, p.escapes = m.Resolve(string(r.Path))
+	p.usable = pathUsable(p.clean)
 	p.lerr, p.serr = os.ErrNotExist, os.ErrNotExist
 	switch r.Op {
 	case "OPEN_DIR", "STAT", "OPEN_FILE", "CREATE", "DELETE", "RMDIR", "MKDIR", "DIR_SIZE":
@@ -244,7 +254,7 @@ func (m *Model) observe(r Req) *pre {
 			}
 		}
 	}
-	if m.AllowWrite && (r.Op == "DELETE" || r.Op == "RMDIR" || r.Op == "MKDIR") {
+	if m.AllowWrite && (r.Op == "DELETE" || r.Op == "RMDIR" || r.Op == "MKDIR" || (r.Op == "CREATE" && p.escapes)) {
 		p.snap, _ = Snapshot(m.Root)
 	}
 	if r.Op == "WRITE" && m.wo.open {
@@ -270,6 +280,18 @@ func (m *Model) Step(c *Conn, r Req) error {
 
 // Check reads and verifies the reply for r (already sent).
 func (m *Model) Check(c *Conn, r Req) error {
+	start := len(c.Recv)
+	err := m.check(c, r)
+	if c.KeepRecv && m.RecordReplies {
+		m.Replies = append(m.Replies, append([]byte(nil), c.Recv[start:]...))
+		m.ReplyImage = append(m.ReplyImage, m.roIsImage && (r.Op == "READ_FILE" || r.Op == "READ_CRIT" || r.Op == "READ_CD"))
+	}
+	return err
+}
+
+var replySize = map[string]int{"OPEN_FILE": 16, "STAT": 33, "OPEN_DIR": 4, "CREATE": 4, "DELETE": 4, "MKDIR": 4, "RMDIR": 4, "DIR_SIZE": 8}
+
+func (m *Model) check(c *Conn, r Req) error {
 	m.tr("%s", r)
 	what := r.String()
 	pr := m.pre
@@ -282,6 +304,99 @@ func (m *Model) Check(c *Conn, r Req) error {
 		c.CloseWrite()
 		return m.expectClosed(c, what+" truncated at "+fmt.Sprint(r.Short))
 	}
+	if n, ok := replySize[r.Op]; ok && pr.escapes {
+		return m.checkEscaping(c, r, pr, n, what)
+	}
+	return m.dispatch(c, r, pr, what)
+}
+
+// checkEscaping: the lexical walk of the path rises above the root. The reply
+// must be the one for the clamped path, or exactly the non-existent reply; for
+// mutating requests the same holds for the effect (C01).
+func (m *Model) checkEscaping(c *Conn, r Req, pr *pre, n int, what string) error {
+	raw, err := m.readFixed(c, n, what)
+	if err != nil {
+		return err
+	}
+	saved := struct {
+		cwd cwdState
+		ro  roState
+		wo  woState
+		img bool
+	}{m.cwd, m.ro, m.wo, m.roIsImage}
+	fake := &Conn{C: &bufConn{b: raw}, Timeout: c.Timeout}
+	errClamp := m.dispatch(fake, r, pr, what)
+	if errClamp == nil {
+		if m.St != nil {
+			m.St.Label("escaping path answered like its clamped form")
+		}
+		return nil
+	}
+	m.cwd, m.ro, m.wo, m.roIsImage = saved.cwd, saved.ro, saved.wo, saved.img
+	// exactly the non-existent reply?
+	ne := make([]byte, n)
+	for i := 0; i < 8 && i < n; i++ {
+		ne[i] = 0xff
+	}
+	if n == 4 {
+		ne = []byte{0xff, 0xff, 0xff, 0xff}
+	}
+	okNE := bytes.Equal(raw, ne) || (r.Op == "DIR_SIZE" && bytes.Equal(raw, make([]byte, 8)))
+	if okNE && mutating[r.Op] && m.AllowWrite && pr.snap != nil {
+		after, _ := Snapshot(m.Root)
+		if d := DiffSnap(pr.snap, after, false); d != "" {
+			okNE = false
+			errClamp = failf("confinement", "%s answered 'non-existent' but the root changed: %s (clamped-form check: %v)", what, d, errClamp)
+		}
+	}
+	if !okNE {
+		var f *Fail
+		msg := errClamp.Error()
+		if errors.As(errClamp, &f) {
+			msg = f.Msg
+		}
+		return failf("confinement", "%s leaves the root lexically; the reply %x is neither the reply for the clamped path %s (%s) nor the non-existent reply", what, head(raw, 40), pr.clean, msg)
+	}
+	if m.St != nil {
+		m.St.Label("escaping path answered like a non-existent path")
+	}
+	switch r.Op {
+	case "OPEN_FILE":
+		m.ro = roState{}
+		m.roIsImage = false
+	case "OPEN_DIR":
+		if m.cwd.kind == cwdOpen || m.cwd.kind == cwdExhausted {
+			m.cwd.altNone = true
+		}
+	case "CREATE":
+		if m.AllowWrite {
+			m.wo = woState{}
+		}
+	}
+	return nil
+}
+
+type bufConn struct {
+	b []byte
+}
+
+func (b *bufConn) Read(p []byte) (int, error) {
+	if len(b.b) == 0 {
+		return 0, io.EOF
+	}
+	n := copy(p, b.b)
+	b.b = b.b[n:]
+	return n, nil
+}
+func (b *bufConn) Write(p []byte) (int, error)      { return len(p), nil }
+func (b *bufConn) Close() error                     { return nil }
+func (b *bufConn) LocalAddr() net.Addr              { return nil }
+func (b *bufConn) RemoteAddr() net.Addr             { return nil }
+func (b *bufConn) SetDeadline(time.Time) error      { return nil }
+func (b *bufConn) SetReadDeadline(time.Time) error  { return nil }
+func (b *bufConn) SetWriteDeadline(time.Time) error { return nil }
+
+func (m *Model) dispatch(c *Conn, r Req, pr *pre, what string) error {
 	switch r.Op {
 	case "UNKNOWN", "RAW":
 		return m.expectClosed(c, what)
@@ -385,10 +500,11 @@ func (m *Model) openDir(c *Conn, r Req, pr *pre, what string) error {
 		if res != -1 {
 			return failf("opendir-truth", "%s: non-directory %s accepted as directory", what, clean)
 		}
-		// handle replaced by a non-listable one, or previous kept
+		// {handle replaced by a non-listable one | previous directory kept}: a non-listable
+		// handle answers like no directory at all, so this is the same alternative as below
 		if m.cwd.kind == cwdOpen || m.cwd.kind == cwdExhausted {
-			m.cwd = cwdState{kind: cwdUnknown}
-		} else {
+			m.cwd.altNone = true
+		} else if m.cwd.kind != cwdUnknown {
 			m.cwd = cwdState{kind: cwdNoList}
 		}
 	default:
@@ -744,6 +860,7 @@ func (m *Model) openFile(c *Conn, r Req, pr *pre, what string) error {
 		return err
 	}
 	t1 := time.Now().Unix()
+	m.roIsImage = false
 	size, mtime := int64(be64(b[0:8])), int64(be64(b[8:16]))
 	if path.Base(clean) == "CLOSEFILE" {
 		if size != 0 || mtime != 0 {
@@ -756,7 +873,7 @@ func (m *Model) openFile(c *Conn, r Req, pr *pre, what string) error {
 	if vk != "" {
 		innerReal := filepath.Join(m.Root, filepath.FromSlash(inner))
 		fi, serr := os.Stat(innerReal)
-		if !pathUsable(string(r.Path)) {
+		if !pathUsable(clean) {
 			serr = os.ErrNotExist
 		}
 		if serr != nil || !fi.IsDir() {
@@ -790,8 +907,10 @@ func (m *Model) openFile(c *Conn, r Req, pr *pre, what string) error {
 			}
 		}
 		m.ro = roState{kind: roObj, obj: obj, cds: 2352}
+		m.roIsImage = true
 		return nil
 	}
+	m.roIsImage = false
 	fi, serr := pr.fi, pr.serr
 	switch {
 	case serr != nil:
